@@ -453,6 +453,7 @@ pub enum MacContext {
     CoseMac0,
 }«
 use crate::vprelude::*;
+broadcast use crate::vprelude::lemma_empty_array_view;
 use crate::header::{prot_slot, prot_encodable};
 use crate::sign::opt_bytes;
 pub open spec fn mac_ctx_text(c: MacContext) -> Seq<char> { match c { MacContext::CoseMac => "MAC"@, MacContext::CoseMac0 => "MAC0"@ } }
